@@ -18,7 +18,7 @@ PROPS["C08"] = dict(
         "Zrnt.Proofs.C08.checked_step_boundary",
         "Zrnt.Proofs.C08.chain_ctx_invariant",
         "Zrnt.Proofs.C08.reload_equiv",
-        "Zrnt.Proofs.C08.ctx_reads_in_range_partial",
+        "Zrnt.Proofs.C08.ctx_reads_in_range",
     ],
     modes=[dict(name="c08", stateful=True, max_shrinks=3)],
     custom=short_samples("c08"),
